@@ -84,6 +84,10 @@ def _record_shipped(path: str, tier: str, prop: str, res: Result) -> int:
         inputs.append(d[:4096])
     inputs += list(drivers.nested(rng, n_nest))
     inputs += drivers.KNOWN_TRIGGERS
+    from .props_total import pe_grid      # truncated / malformed / embedded PE headers (spans that tempt a decoder past the end of its text)
+
+    grid = pe_grid(rng, tier)
+    inputs += grid[:: max(1, len(grid) // (60 if tier == "quick" else 600))]
     full = Recorder()
     from multidecoder.registry import get_analyzers
 
